@@ -1,6 +1,7 @@
 import MlModel.Lemmas.PiterFinal
 import MlModel.Lemmas.PiterLock
 import MlModel.Lemmas.PiterDead
+import MlModel.Lemmas.PiterVariantStep
 /-!
 # C13 — parallel iteration yields the sequential multiset and releases its threads
 
@@ -36,6 +37,10 @@ What is proved here, and what is inherited:
   pool task), so `max_workers = 1` with any number of tasks is covered.  The open finding F-C13-pool-small
   needs TWO queues in one pool (tasks of the first level block on the bounded input queue that only the
   not yet started tasks of the second level drain) and is outside this LTS (see manifest `level_note`).
+* `C13_variant`, `C13_bounded_executions`, `C13_terminates` — **termination**: an explicit measure `Psi`
+  (the queue's `Phi` on the embedded configuration + the cost of the inputs, of the pending outputs and of the
+  consumer's phase) strictly decreases on every step, so no execution is infinite, and every execution that
+  cannot be extended has all helper threads finished and the pool shut down.
 * around it: `shutdown` is enabled exactly when every task has finished
   (`C13_shutdown_enabled`, `C13_shutdown_joins`); failures and stop requests are sticky and make
   `enqueue_done` hold for good (`C13_done_sticky`); once `enqueue_done` holds no producer parks again
@@ -240,8 +245,7 @@ function, after an early stop after any number of steps.  No liveness hypothesis
 `shutdown()`, which is only enabled then (`C13_shutdown_joins`), has returned — and the consumer is past
 `shutdown`.
 
-(Not proved here: "there is no infinite execution", i.e. a termination measure for this LTS in the style
-of `C04_variant`; every *maximal finite* execution ends in a final configuration by this theorem.) -/
+("There is no infinite execution" is `C13_variant` / `C13_bounded_executions` / `C13_terminates` below.) -/
 theorem C13_threads_end (hne : prods ≠ [])
     (h : Reachable F (Piter.init cap bm mw ns soe inputs prods) c) (hq : Quiescent F c) :
     (∀ t ∈ c.ths, t.isProd = true → t.q.pc = .done) ∧ (∀ t0, c.ths[0]? = some t0 → t0.cpc = .fin) ∧
@@ -269,6 +273,48 @@ theorem C13_threads_end (hne : prods ≠ [])
     cases hp : t.isProd with
     | false => simp
     | true => simpa [PThread.done, hp] using this
+
+/-! #### termination -/
+
+/-- **Variant.**  The measure `Psi` (`Lemmas/PiterVariantDefs.lean`: the queue's measure `Phi` on the
+embedded configuration + per producer `wA` per pending output, the cost of the items still in its input —
+3 lock steps and `wA` per output of the row function —, of the item in hand and of the current pull + a
+rank of the consumer's phase that pre-pays its `maybe_stop()`) strictly decreases on **every** step of every
+thread, for every capacity, `max_workers`, `num_steps`, stop-on-end flag, inputs (failing items included),
+row function (any number of outputs per row, failures) and producers.  `hbm`: the batch size is positive
+(as in `C04_variant`: the real `get_batch(0)` means "the default"). -/
+theorem C13_variant (hbm : 0 < bm) (h : Reachable F (Piter.init cap bm mw ns soe inputs prods) c)
+    {tid : Tid} {alt : Bool} {lbl : String} {c' : Piter.Cfg} (hs : Piter.step F c tid alt = some (lbl, c')) :
+    Psi F c' < Psi F c :=
+  psi_step_init hbm h hs
+
+/-- **No infinite execution**: from a reachable configuration `c` no execution has more than `Psi F c`
+steps (no fairness assumption, every scheduler). -/
+theorem C13_bounded_executions (hbm : 0 < bm) (h : Reachable F (Piter.init cap bm mw ns soe inputs prods) c)
+    {n : Nat} {c' : Piter.Cfg} (hn : StepsN F c n c') : n ≤ Psi F c := by
+  have := stepsN_bound hbm h hn
+  omega
+
+/-- **Every execution ends with all helper threads finished and the pool shut down**: executions are
+bounded (`C13_bounded_executions`), and an execution that cannot be extended is final
+(`C13_no_deadlock`): every pool task has run to its end, `shutdown()` has returned. -/
+theorem C13_terminates (hbm : 0 < bm) (hne : prods ≠ [])
+    (h : Reachable F (Piter.init cap bm mw ns soe inputs prods) c) {n : Nat} {c' : Piter.Cfg}
+    (hn : StepsN F c n c') :
+    n ≤ Psi F c ∧ (Quiescent F c' → c'.allDone = true ∧ c'.producersDone = true ∧
+      ∀ t0, c'.ths[0]? = some t0 → t0.cpc = .fin) := by
+  refine ⟨C13_bounded_executions hbm h hn, fun hq => ?_⟩
+  have hr := reachable_stepsN h hn
+  obtain ⟨-, h2, h3⟩ := C13_threads_end hne hr hq
+  refine ⟨?_, h3, h2⟩
+  rcases C13_no_deadlock hne hr with h1 | ⟨tid, alt, h1⟩
+  · exact h1
+  · rw [hq tid alt] at h1; cases h1
+
+/-- non-vacuity of `hbm` and a value of the measure (test): `pmap(inc, [1,2], max_parallism=2,
+buffer_size=1)` cannot run for more than `Psi` steps from its initial configuration -/
+example : Psi (evalFn .inc none) (Piter.init 1 4096 3 none false [[.val 1, .val 2]] (sharedSpecs [900, 900])) = 2902 := by
+  decide
 
 /-- non-vacuity of `hne`: the set-ups of the entry points have producers -/
 example : sharedSpecs [900, 900] ≠ [] ∧ multiplexSpecs [900, 901, 902] ≠ [] := by decide
